@@ -41,7 +41,27 @@ var (
 	// the functions of plenccore (translated separately into GenCore.v) and which of them are monadic
 	coreFuncs   = map[string]bool{}
 	coreMonadic = map[string]bool{}
+	// methods that assign through their receiver (directly or by calling one that does): the receiver is
+	// handed back with the results; a receiver that is only read is an ordinary parameter
+	recvWritten = map[string]bool{}
+	// unsafe.Pointer parameters used as the address of a struct in memory (uintptr(p)+offset): they carry a gval
+	memParams = map[string]map[string]bool{}
+	// the translation used the codec-interface / memory vocabulary of GoMem.v
+	usedMem bool
 )
+
+// isCodecItf: the interface type Codec of plenccodec (a method table, nil-able)
+func isCodecItf(t types.Type) bool {
+	n, ok := t.(*types.Named)
+	if !ok {
+		return false
+	}
+	_, isI := n.Underlying().(*types.Interface)
+	return isI && n.Obj().Name() == "Codec"
+}
+
+func isUnsafePtr(t types.Type) bool { return t != nil && t.String() == "unsafe.Pointer" }
+
 
 func fail(n ast.Node, format string, args ...any) {
 	pos := ""
@@ -137,6 +157,17 @@ func coqType(t types.Type, at ast.Node) string {
 	if _, ok := isFloat(t); ok {
 		return "N"
 	}
+	if isCodecItf(t) {
+		usedMem = true
+		return "(option gcodec)"
+	}
+	if isUnsafePtr(t) {
+		usedMem = true
+		return "gval" // the value the pointer points at
+	}
+	if t.String() == "reflect.Type" {
+		return "unit" // only ever used in error messages
+	}
 	if arr, ok := t.Underlying().(*types.Array); ok {
 		if b, ok := arr.Elem().Underlying().(*types.Basic); ok && b.Kind() == types.Uint8 {
 			return "bytes" // a byte array, as the list of its elements
@@ -184,6 +215,12 @@ func structName(t types.Type) (string, bool) {
 func zeroOf(t types.Type, at ast.Node) string {
 	if _, ok := isFloat(t); ok {
 		return "0%N"
+	}
+	if isCodecItf(t) {
+		return "None"
+	}
+	if t.String() == "reflect.Type" {
+		return "tt"
 	}
 	if arr, ok := t.Underlying().(*types.Array); ok {
 		return fmt.Sprintf("(repeat 0%%N %d)", arr.Len())
@@ -254,6 +291,67 @@ type gen struct {
 	ptrs    map[string]types.Type
 	ptrsOut []string
 	generic bool // the receiver type has an integer type parameter: width w
+	recvRO  bool // the receiver is only read: a parameter, not a result
+	mem     map[string]bool // unsafe.Pointer parameters that are the address of a struct in memory
+	conts   []string        // what `continue` means in the enclosing loops (innermost last)
+	scopeLo, scopeHi token.Pos // the loop body whose carried variables are being collected
+}
+
+// memBaseOf: e is unsafe.Pointer(uintptr(p) + off): returns p and the offset expression
+func memBaseOf(e ast.Expr) (string, ast.Expr, bool) {
+	c, ok := e.(*ast.CallExpr)
+	if !ok || len(c.Args) != 1 {
+		return "", nil, false
+	}
+	tv, has := info.Types[c.Fun]
+	if !has || !tv.IsType() || !isUnsafePtr(tv.Type) {
+		return "", nil, false
+	}
+	b, ok := c.Args[0].(*ast.BinaryExpr)
+	if !ok || b.Op != token.ADD {
+		return "", nil, false
+	}
+	inner, ok := b.X.(*ast.CallExpr)
+	if !ok || len(inner.Args) != 1 {
+		return "", nil, false
+	}
+	if id, ok := inner.Fun.(*ast.Ident); !ok || id.Name != "uintptr" {
+		return "", nil, false
+	}
+	pid, ok := inner.Args[0].(*ast.Ident)
+	if !ok || !isUnsafePtr(info.Types[pid].Type) {
+		return "", nil, false
+	}
+	return pid.Name, b.Y, true
+}
+
+// checksErrAtOnce: the statement list starts with  if err != nil { return ..., <an error> }
+func checksErrAtOnce(stmts []ast.Stmt, errName string) bool {
+	if len(stmts) == 0 {
+		return false
+	}
+	ifs, ok := stmts[0].(*ast.IfStmt)
+	if !ok || ifs.Init != nil || ifs.Else != nil || len(ifs.Body.List) != 1 {
+		return false
+	}
+	c, ok := ifs.Cond.(*ast.BinaryExpr)
+	if !ok || c.Op != token.NEQ {
+		return false
+	}
+	x, ok1 := c.X.(*ast.Ident)
+	y, ok2 := c.Y.(*ast.Ident)
+	if !ok1 || !ok2 || x.Name != errName || y.Name != "nil" {
+		return false
+	}
+	r, ok := ifs.Body.List[0].(*ast.ReturnStmt)
+	if !ok || len(r.Results) == 0 {
+		return false
+	}
+	last := r.Results[len(r.Results)-1]
+	if id, ok := last.(*ast.Ident); ok && id.Name == "nil" {
+		return false
+	}
+	return isError(info.Types[last].Type) || info.Types[last].Type.String() == "error"
 }
 
 // derefOf: e is *(*T)(p) for an unsafe.Pointer parameter p: returns p's name and T
@@ -421,7 +519,11 @@ func (g *gen) expr(e ast.Expr, pre *[]string) string {
 	if tv.Value != nil && tv.Value.Kind() == constant.String {
 		return bytesLit(constant.StringVal(tv.Value))
 	}
-	if name, _, ok := derefOf(e); ok {
+	if name, t, ok := derefOf(e); ok {
+		if isUnsafePtr(t) {
+			usedMem = true
+			return "(go_load_ptr " + sane(name) + ")" // the word a pointer-shaped field holds
+		}
 		return sane(name)
 	}
 	switch x := e.(type) {
@@ -454,6 +556,14 @@ func (g *gen) expr(e ast.Expr, pre *[]string) string {
 				t := g.fresh("cur")
 				*pre = append(*pre, fmt.Sprintf("do %s <- go_nth \"%s.%s\" %s %s;", t, g.fn.Name.Name, t, pl.cont, pl.idx))
 				return fmt.Sprintf("(%s_%s %s)", pl.elemT, x.Sel.Name, t)
+			}
+		}
+		if xt := info.Types[x.X].Type; xt != nil {
+			if p, ok := xt.(*types.Pointer); ok {
+				xt = p.Elem()
+			}
+			if n, ok := structName(xt); ok {
+				return fmt.Sprintf("(%s_%s %s)", n, x.Sel.Name, g.expr(x.X, pre))
 			}
 		}
 		fail(e, "unsupported selector expression")
@@ -505,11 +615,26 @@ func (g *gen) expr(e ast.Expr, pre *[]string) string {
 		if x.Max == nil && x.Low == nil && x.High == nil {
 			return g.expr(x.X, pre) // b[:] : the whole of it
 		}
-		if x.Max != nil || (x.Low == nil) == (x.High == nil) {
+		if x.Max != nil {
 			fail(e, "unsupported slice expression")
 		}
 		if !g.mon {
 			fail(e, "slice expression in a function that is not monadic")
+		}
+		if x.Low != nil && x.High != nil {
+			conv := func(b ast.Expr) string {
+				k, _ := intKind(info.Types[b].Type)
+				v := g.expr(b, pre)
+				if !k.signed {
+					v = "(Z.of_N " + v + ")"
+				}
+				return v
+			}
+			lo, hi := conv(x.Low), conv(x.High)
+			t := g.fresh("sb")
+			usedMem = true
+			*pre = append(*pre, fmt.Sprintf("do %s <- go_slice_both \"%s.%s\" %s %s %s;", t, g.fn.Name.Name, t, g.expr(x.X, pre), lo, hi))
+			return t
 		}
 		bound, prim, nm := x.Low, "go_slice_from", "sl"
 		if x.High != nil {
@@ -573,6 +698,23 @@ func (g *gen) binary(x *ast.BinaryExpr, pre *[]string) string {
 			return "(" + a + " && " + b + ")"
 		}
 		return "(" + a + " || " + b + ")"
+	}
+	if x.Op == token.EQL || x.Op == token.NEQ {
+		isNil := func(e ast.Expr) bool { id, ok := e.(*ast.Ident); return ok && id.Name == "nil" }
+		var other ast.Expr
+		if isNil(x.Y) {
+			other = x.X
+		} else if isNil(x.X) {
+			other = x.Y
+		}
+		if other != nil && isCodecItf(info.Types[other].Type) {
+			usedMem = true
+			t := "(go_is_nil " + g.expr(other, pre) + ")"
+			if x.Op == token.NEQ {
+				return "(negb " + t + ")"
+			}
+			return t
+		}
 	}
 	// the operand type: for comparisons the (common) operand type, for shifts the left operand
 	ot := lt
@@ -651,6 +793,13 @@ func (g *gen) binary(x *ast.BinaryExpr, pre *[]string) string {
 
 func (g *gen) call(x *ast.CallExpr, pre *[]string) string {
 	// conversion?
+	if base, off, ok := memBaseOf(x); ok {
+		if !g.mem[base] {
+			fail(x, "pointer arithmetic on something other than a struct address parameter")
+		}
+		usedMem = true
+		return fmt.Sprintf("(go_field_get %s %s)", sane(base), g.expr(off, pre))
+	}
 	if tv, ok := info.Types[x.Fun]; ok && tv.IsType() {
 		// string(b), []byte(s), []byte(nil): byte strings are lists of bytes either way
 		if isBytes(tv.Type) {
@@ -718,13 +867,41 @@ func (g *gen) call(x *ast.CallExpr, pre *[]string) string {
 				return t
 			}
 		}
+		if isCodecItf(info.Types[f.X].Type) {
+			// a method of the Codec interface: the method table must be there (a nil interface panics)
+			usedMem = true
+			if !g.mon {
+				fail(x, "interface method call in a function that is not monadic")
+			}
+			recvE := g.expr(f.X, pre)
+			var args []string
+			for _, a := range x.Args {
+				args = append(args, g.expr(a, pre))
+			}
+			cd := g.fresh("cd")
+			*pre = append(*pre, fmt.Sprintf("do %s <- go_itf \"%s.%s\" %s;", cd, g.fn.Name.Name, cd, recvE))
+			switch f.Sel.Name {
+			case "Omit", "Size":
+				return fmt.Sprintf("(gc_%s %s %s)", f.Sel.Name, cd, strings.Join(args, " "))
+			case "WireType":
+				return fmt.Sprintf("(gc_WireType %s)", cd)
+			case "Append":
+				t := g.fresh("r")
+				*pre = append(*pre, fmt.Sprintf("do %s <- gc_Append %s fuel %s;", t, cd, strings.Join(args, " ")))
+				return t
+			}
+			fail(x, "method %s of the Codec interface outside the subset (Read: only as  n, err := c.Read(...))", f.Sel.Name)
+		}
 		if p, ok := f.X.(*ast.Ident); ok {
 			if mk := methodKey(f); mk != "" {
 				fd := funcs[mk]
-				if usesRecv[mk] {
+				if recvWritten[mk] {
 					fail(x, "a method that changes its receiver is called inside an expression")
 				}
 				var args []string
+				if usesRecv[mk] {
+					args = append(args, g.expr(p, pre)) // a receiver that is only read
+				}
 				for _, a := range x.Args {
 					args = append(args, g.expr(a, pre))
 				}
@@ -788,7 +965,7 @@ func sgn(k ikind) string {
 // retval: the value a return hands back - the (threaded) receiver first, then the results
 func (g *gen) retval(vals []string) string {
 	var front []string
-	if g.recv != "" {
+	if g.recv != "" && !g.recvRO {
 		front = append(front, sane(g.recv))
 	}
 	for _, p := range g.ptrsOut {
@@ -818,7 +995,7 @@ func (g *gen) ret(r *ast.ReturnStmt, wrap func(string) string) string {
 		}
 		return wrap(g.retval(vals))
 	}
-	if len(res) == 1 && g.recv == "" && len(g.ptrsOut) == 0 {
+	if len(res) == 1 && (g.recv == "" || g.recvRO) && len(g.ptrsOut) == 0 {
 		if c, ok := res[0].(*ast.CallExpr); ok {
 			if tv := info.Types[c]; tv.Type != nil {
 				if _, isTuple := tv.Type.(*types.Tuple); isTuple {
@@ -871,6 +1048,13 @@ func (g *gen) assigned(stmts []ast.Stmt, out map[string]bool) {
 				if x.Name == "_" {
 					return
 				}
+				obj := info.Uses[x]
+				if obj == nil {
+					obj = info.Defs[x]
+				}
+				if obj != nil && g.scopeLo <= obj.Pos() && obj.Pos() < g.scopeHi {
+					return // declared inside the loop body: a fresh variable in every iteration
+				}
 				if _, isPlace := g.places[x.Name]; isPlace || (g.recv != "" && x.Name == g.recv) {
 					out[g.recv] = true
 				} else {
@@ -894,10 +1078,16 @@ func (g *gen) assigned(stmts []ast.Stmt, out map[string]bool) {
 				}
 			case *ast.IncDecStmt:
 				root(a.X)
+			case *ast.CallExpr:
+				if sel, ok := a.Fun.(*ast.SelectorExpr); ok && sel.Sel.Name == "Read" && isCodecItf(info.Types[sel.X].Type) && len(a.Args) == 3 {
+					if base, _, ok := memBaseOf(a.Args[1]); ok {
+						out[base] = true
+					}
+				}
 			case *ast.ExprStmt:
 				if c, ok := a.X.(*ast.CallExpr); ok {
 					if sel, ok := c.Fun.(*ast.SelectorExpr); ok {
-						if id, ok := sel.X.(*ast.Ident); ok && g.recv != "" && id.Name == g.recv && usesRecv[methodKey(sel)] {
+						if id, ok := sel.X.(*ast.Ident); ok && g.recv != "" && id.Name == g.recv && recvWritten[methodKey(sel)] {
 							out[g.recv] = true
 						}
 					}
@@ -974,6 +1164,36 @@ func (g *gen) block(stmts []ast.Stmt, k string, retwrap func(string) string, ind
 				names = append(names, sane(id.Name))
 			}
 		}
+		if tup, ok := info.Types[call].Type.(*types.Tuple); ok && tup.Len() >= 2 && isError(tup.At(tup.Len()-1).Type()) {
+			// v, err := f(...): f lives in the res monad, so its error ends this function with an error too.
+			// That is what the Go code does only if it checks err at once and returns an error: required.
+			errName := x.Lhs[len(x.Lhs)-1].(*ast.Ident).Name
+			if errName == "_" || !checksErrAtOnce(stmts[1:], errName) {
+				fail(x, "an error result that is not checked at once by  if err != nil { return ..., err }: outside the subset")
+			}
+			names = names[:len(names)-1]
+			after := g.block(stmts[2:], k, retwrap, ind)
+			if sel, ok := call.Fun.(*ast.SelectorExpr); ok && sel.Sel.Name == "Read" && isCodecItf(info.Types[sel.X].Type) && len(call.Args) == 3 {
+				// n, err := c.Read(data, unsafe.Pointer(uintptr(p)+off), wt): reads the prior value of the
+				// sub-object and stores what the codec hands back
+				usedMem = true
+				recvE := g.expr(sel.X, &pre)
+				dataArg := g.expr(call.Args[0], &pre)
+				base, offE, isPlace := memBaseOf(call.Args[1])
+				if !isPlace || !g.mem[base] {
+					fail(x, "Read through the Codec interface into something other than a field of a struct address parameter")
+				}
+				off := g.expr(offE, &pre)
+				wtArg := g.expr(call.Args[2], &pre)
+				cd, rr, pv := g.fresh("cd"), g.fresh("rd"), g.fresh("pv")
+				pre = append(pre, fmt.Sprintf("do %s <- go_itf \"%s.%s\" %s;", cd, g.fn.Name.Name, cd, recvE))
+				pre = append(pre, fmt.Sprintf("do %s <- gc_Read %s fuel %s (go_field_get %s %s) %s;", rr, cd, dataArg, sane(base), off, wtArg))
+				return strings.Join(pre, "\n"+ind) + nl(pre, ind) +
+					fmt.Sprintf("let '(%s, %s) := %s in\n%slet %s := go_field_set %s %s %s in\n%s", pv, names[0], rr, ind, sane(base), sane(base), off, pv, ind) + after
+			}
+			v := g.expr(call, &pre)
+			return strings.Join(pre, "\n"+ind) + nl(pre, ind) + fmt.Sprintf("let '%s := %s in\n%s", tuple(names), v, ind) + after
+		}
 		v := g.expr(call, &pre)
 		return strings.Join(pre, "\n"+ind) + nl(pre, ind) + fmt.Sprintf("let '%s := %s in\n%s", tuple(names), v, ind) + rest()
 	case *ast.IncDecStmt:
@@ -1016,7 +1236,7 @@ func (g *gen) block(stmts []ast.Stmt, k string, retwrap func(string) string, ind
 		if c, ok := x.X.(*ast.CallExpr); ok {
 			if sel, ok := c.Fun.(*ast.SelectorExpr); ok {
 				if id, ok := sel.X.(*ast.Ident); ok && g.recv != "" && id.Name == g.recv {
-					if mk := methodKey(sel); mk != "" && usesRecv[mk] {
+					if mk := methodKey(sel); mk != "" && recvWritten[mk] {
 						fd := funcs[mk]
 						if fd.Type.Results != nil && len(fd.Type.Results.List) > 0 {
 							fail(x, "result of a method call dropped")
@@ -1098,6 +1318,11 @@ func (g *gen) block(stmts []ast.Stmt, k string, retwrap func(string) string, ind
 		return g.rangeLoop(x, stmts[1:], k, retwrap, ind)
 	case *ast.EmptyStmt:
 		return rest()
+	case *ast.BranchStmt:
+		if x.Tok == token.CONTINUE && x.Label == nil && len(g.conts) > 0 {
+			return g.conts[len(g.conts)-1]
+		}
+		fail(s, "break / goto / labelled continue")
 	case *ast.DeclStmt:
 		gd, ok := x.Decl.(*ast.GenDecl)
 		if !ok || gd.Tok != token.VAR {
@@ -1224,10 +1449,14 @@ func endsInReturn(l []ast.Stmt) bool {
 
 func (g *gen) retType() string {
 	var ts []string
-	if g.recv != "" {
+	if g.recv != "" && !g.recvRO {
 		ts = append(ts, g.recvT)
 	}
 	for _, p := range g.ptrsOut {
+		if g.mem[p] {
+			ts = append(ts, "gval")
+			continue
+		}
 		ts = append(ts, coqType(g.ptrs[p], g.fn))
 	}
 	ts = append(ts, g.rtypes...)
@@ -1243,6 +1472,10 @@ func (g *gen) retType() string {
 // varsOf: the loop-carried variables, in a fixed order, with their Coq types
 func (g *gen) carried(body []ast.Stmt, post ast.Stmt, declaredInLoop map[string]bool) (names, tys []string) {
 	as := map[string]bool{}
+	if len(body) > 0 {
+		g.scopeLo, g.scopeHi = body[0].Pos(), body[len(body)-1].End()
+	}
+	defer func() { g.scopeLo, g.scopeHi = 0, 0 }()
 	g.assigned(body, as)
 	if post != nil {
 		g.assigned([]ast.Stmt{post}, as)
@@ -1336,15 +1569,9 @@ func (g *gen) forLoop(x *ast.ForStmt, after []ast.Stmt, k string, retwrap func(s
 	if x.Post != nil {
 		cont = g.block([]ast.Stmt{x.Post}, cont, lret, ind+"      ")
 	}
-	for _, st := range x.Body.List {
-		ast.Inspect(st, func(n ast.Node) bool {
-			if b, ok := n.(*ast.BranchStmt); ok {
-				fail(b, "break / continue / goto in a loop")
-			}
-			return true
-		})
-	}
+	g.conts = append(g.conts, cont)
 	body := g.block(x.Body.List, cont, lret, ind+"      ")
+	g.conts = g.conts[:len(g.conts)-1]
 	cond := "true"
 	var pre []string
 	if x.Cond != nil {
@@ -1372,8 +1599,16 @@ func (g *gen) rangeLoop(x *ast.RangeStmt, after []ast.Stmt, k string, retwrap fu
 	if !g.mon {
 		fail(x, "loop in a function that is not monadic")
 	}
-	if !isBytes(info.Types[x.X].Type) || x.Tok != token.DEFINE {
-		fail(x, "range over something other than a byte slice")
+	restTy := "bytes"
+	if !isBytes(info.Types[x.X].Type) {
+		sl, ok := info.Types[x.X].Type.Underlying().(*types.Slice)
+		if !ok {
+			fail(x, "range over something other than a slice")
+		}
+		restTy = "(list " + coqType(sl.Elem(), x) + ")"
+	}
+	if x.Tok != token.DEFINE {
+		fail(x, "range with = ")
 	}
 	g.loopN++
 	loop := fmt.Sprintf("loop%d", g.loopN)
@@ -1403,9 +1638,11 @@ func (g *gen) rangeLoop(x *ast.RangeStmt, after []ast.Stmt, k string, retwrap fu
 	var pre []string
 	src := g.expr(x.X, &pre)
 	cont := fmt.Sprintf("%s (sadd 64 %s 1%%Z) rest' %s", loop, iName, strings.Join(args, " "))
+	g.conts = append(g.conts, cont)
 	body := g.block(x.Body.List, cont, lret, ind+"      ")
+	g.conts = g.conts[:len(g.conts)-1]
 	out := strings.Join(pre, "\n"+ind) + nl(pre, ind)
-	out += fmt.Sprintf("do lr <- (fix %s (%s : Z) (rest : bytes) %s {struct rest} : res (lout %s %s) :=\n", loop, iName, strings.Join(params, " "), g.retType(), stateTy)
+	out += fmt.Sprintf("do lr <- (fix %s (%s : Z) (rest : %s) %s {struct rest} : res (lout %s %s) :=\n", loop, iName, restTy, strings.Join(params, " "), g.retType(), stateTy)
 	out += fmt.Sprintf("%s    match rest with\n%s    | [] => Ok (LDone %s)\n%s    | %s :: rest' =>\n%s      %s\n%s    end) 0%%Z %s %s;\n", ind, ind, state, ind, vName, ind, body, ind, src, strings.Join(args, " "))
 	out += fmt.Sprintf("%smatch lr with\n%s| LRet v => %s\n%s| LDone %s =>\n%s  %s\n%send", ind, ind, retwrap("v"), ind, patt(args), ind, g.block(after, k, retwrap, ind+"  "), ind)
 	return out
@@ -1517,6 +1754,9 @@ func hasLoopOrEffect(fd *ast.FuncDecl) bool {
 				found = true
 			}
 			if sel, ok := x.Fun.(*ast.SelectorExpr); ok {
+				if isCodecItf(info.Types[sel.X].Type) {
+					found = true // a nil interface panics
+				}
 				if p, ok := sel.X.(*ast.Ident); ok && p.Name == "plenccore" && coreMonadic[sel.Sel.Name] {
 					found = true
 				}
@@ -1560,6 +1800,18 @@ func (g *gen) function() string {
 			g.ptrs[name] = t
 		}
 	}
+	g.mem = memParams[fkey(fd)]
+	ast.Inspect(fd.Body, func(n ast.Node) bool {
+		// a Read through the Codec interface into a field of the struct at p writes that struct
+		if c, ok := n.(*ast.CallExpr); ok && len(c.Args) == 3 {
+			if sel, ok := c.Fun.(*ast.SelectorExpr); ok && sel.Sel.Name == "Read" && isCodecItf(info.Types[sel.X].Type) {
+				if base, _, ok := memBaseOf(c.Args[1]); ok && g.mem[base] {
+					written[base] = true
+				}
+			}
+		}
+		return true
+	})
 	if fd.Recv != nil {
 		if _, isGeneric := fd.Recv.List[0].Type.(*ast.IndexExpr); isGeneric {
 			g.generic = true
@@ -1568,6 +1820,14 @@ func (g *gen) function() string {
 	}
 	for i := 0; i < sig.Params().Len(); i++ {
 		p := sig.Params().At(i)
+		if p.Type().String() == "unsafe.Pointer" && g.mem[p.Name()] {
+			usedMem = true
+			params = append(params, fmt.Sprintf("(%s : gval)", sane(p.Name())))
+			if written[p.Name()] {
+				g.ptrsOut = append(g.ptrsOut, p.Name())
+			}
+			continue
+		}
 		if p.Type().String() == "unsafe.Pointer" {
 			t, used := g.ptrs[p.Name()]
 			if !used {
@@ -1601,6 +1861,7 @@ func (g *gen) function() string {
 	if fd.Recv != nil && usesRecv[fkey(fd)] {
 		g.recv = fd.Recv.List[0].Names[0].Name
 		g.recvT = recvTypeName(fd)
+		g.recvRO = !recvWritten[fkey(fd)]
 		params = append([]string{fmt.Sprintf("(%s : %s)", sane(g.recv), g.recvT)}, params...)
 	}
 	rt := g.retType()
@@ -1834,6 +2095,117 @@ func main() {
 	for f := range want {
 		fail(nil, "function %s not found in %s/%s", f, pkgdir, onlyFile)
 	}
+	// which methods write their receiver, which unsafe.Pointer parameters address a struct in memory
+	rootIsRecv := func(fd *ast.FuncDecl, e ast.Expr) bool {
+		rn := fd.Recv.List[0].Names[0]
+		for {
+			switch x := e.(type) {
+			case *ast.SelectorExpr:
+				e = x.X
+				continue
+			case *ast.IndexExpr:
+				e = x.X
+				continue
+			case *ast.SliceExpr:
+				e = x.X
+				continue
+			case *ast.ParenExpr:
+				e = x.X
+				continue
+			case *ast.Ident:
+				return info.Uses[x] != nil && info.Uses[x] == info.Defs[rn]
+			}
+			return false
+		}
+	}
+	for changed := true; changed; {
+		changed = false
+		for _, n := range order {
+			fd := funcs[n]
+			if fd.Recv == nil || !usesRecv[n] || recvWritten[n] {
+				continue
+			}
+			w := false
+			ast.Inspect(fd.Body, func(x ast.Node) bool {
+				switch a := x.(type) {
+				case *ast.AssignStmt:
+					for _, l := range a.Lhs {
+						if _, isId := l.(*ast.Ident); !isId && rootIsRecv(fd, l) {
+							w = true
+						}
+					}
+					for _, r := range a.Rhs {
+						if u, ok := r.(*ast.UnaryExpr); ok && u.Op == token.AND && rootIsRecv(fd, u.X) {
+							w = true // a pointer into the receiver
+						}
+					}
+				case *ast.IncDecStmt:
+					if rootIsRecv(fd, a.X) {
+						w = true
+					}
+				case *ast.CallExpr:
+					if sel, ok := a.Fun.(*ast.SelectorExpr); ok {
+						if mk := methodKey(sel); mk != "" && recvWritten[mk] && rootIsRecv(fd, sel.X) {
+							w = true
+						}
+					}
+				}
+				return true
+			})
+			if w {
+				recvWritten[n] = true
+				changed = true
+			}
+		}
+	}
+	for _, n := range order {
+		if usesRecv[n] && !recvWritten[n] {
+			monadic[n] = false // decided by what the body does, like any function
+		}
+	}
+	for changed := true; changed; {
+		changed = false
+		for _, n := range order {
+			fd := funcs[n]
+			sig := info.Defs[fd.Name].Type().(*types.Signature)
+			for i := 0; i < sig.Params().Len(); i++ {
+				p := sig.Params().At(i)
+				if !isUnsafePtr(p.Type()) || memParams[n][p.Name()] {
+					continue
+				}
+				is := false
+				ast.Inspect(fd.Body, func(x ast.Node) bool {
+					c, ok := x.(*ast.CallExpr)
+					if !ok {
+						return true
+					}
+					if id, ok := c.Fun.(*ast.Ident); ok && id.Name == "uintptr" && len(c.Args) == 1 {
+						if a, ok := c.Args[0].(*ast.Ident); ok && info.Uses[a] == p {
+							is = true
+						}
+					}
+					if sel, ok := c.Fun.(*ast.SelectorExpr); ok {
+						if mk := methodKey(sel); mk != "" {
+							csig := info.Defs[funcs[mk].Name].Type().(*types.Signature)
+							for j, a := range c.Args {
+								if id, ok := a.(*ast.Ident); ok && info.Uses[id] == p && j < csig.Params().Len() && memParams[mk][csig.Params().At(j).Name()] {
+									is = true
+								}
+							}
+						}
+					}
+					return true
+				})
+				if is {
+					if memParams[n] == nil {
+						memParams[n] = map[string]bool{}
+					}
+					memParams[n][p.Name()] = true
+					changed = true
+				}
+			}
+		}
+	}
 	// monadic: loops, slicing, an error result, or a call of a monadic function (to a fixpoint)
 	for _, n := range order {
 		sig := info.Defs[funcs[n].Name].Type().(*types.Signature)
@@ -1883,7 +2255,7 @@ func main() {
 	}
 	var out strings.Builder
 	out.WriteString("(* GENERATED by /verif/tools/gotrans from " + dir + " " + onlyFile + " - do not edit.\n   One definition per function of the package, translated statement by statement. *)\n")
-	out.WriteString("From Plenc Require Import Base Varint GoSem.\n")
+	out.WriteString("From Plenc Require Import Base Varint GoSem.\n@@MEM@@")
 	if wholePkg {
 		out.WriteString("From PlencGen Require GenCore.\n")
 	}
@@ -1945,7 +2317,14 @@ func main() {
 		}
 	}
 	out.WriteString("(* functions in the res monad (loops, slicing, error results): " + strings.Join(ml, ", ") + " *)\n")
-	if err := os.WriteFile(os.Args[2], []byte(out.String()), 0o644); err != nil {
+	text := out.String()
+	if usedMem {
+		// the Codec interface as a method table and struct memory as a value of the model (GoMem.v)
+		text = strings.Replace(text, "@@MEM@@", "From Plenc Require Import GoMem.\n", 1)
+	} else {
+		text = strings.Replace(text, "@@MEM@@", "", 1)
+	}
+	if err := os.WriteFile(os.Args[2], []byte(text), 0o644); err != nil {
 		fail(nil, "%v", err)
 	}
 }
